@@ -635,3 +635,99 @@ pub fn walk_prog(p: &mut Prog, f: &mut Visit) {
 
 /// true iff `s` is usable as a bare `_frag` index fragment
 pub fn ident_like(s: &str) -> bool { is_ident(s) }
+
+// ---------------------------------------------------------------------------------------------
+// destructuring shapes (C18: must not panic; C19: static arity rule vs. runtime destructuring)
+// ---------------------------------------------------------------------------------------------
+pub struct Destructure {
+    pub src: String,
+    pub source: &'static str,
+    /// protocol spelling of the static kind of the iterator expression
+    pub static_kind: &'static str,
+    /// per runtime element: number of components it spreads into, `None` = not spreadable (a scalar)
+    pub comps: Vec<Option<usize>>,
+    pub tuple: bool,
+    pub vars: Vec<String>,
+    pub position: &'static str,
+    /// the element arity is statically known (tuple / edge): an over-long pattern is a TYPE error
+    pub static_arity: bool,
+}
+
+pub const DESTRUCTURE_CONSTS: &str = "    let G = Graph { A -> [B: 2, C], B -> [C], C }\n    let A = [4, 5, 6]\n    let S = [\"a\", \"b\"]\n    let M = [[1, 2], [3, 4]]\n    let J = [[1, 2, 3], [4, 5]]\n    let K = [[1], [2, 3]]\n    let X = [1, \"a\"]\n    let n = 3\n";
+
+pub fn destructure_programs(all_masks: bool) -> Vec<Destructure> {
+    // (name, iterator text, static kind, runtime components, static arity)
+    let sources: Vec<(&'static str, &'static str, &'static str, Vec<Option<usize>>, bool)> = vec![
+        ("edges", "edges(G)", "(iter edge)", vec![Some(3); 3], true),
+        ("neigh-edges-of", "neigh_edges_of(\"A\", G)", "(iter edge)", vec![Some(3); 2], true),
+        ("enumerate", "enumerate(A)", "(iter (tuple integer pint))", vec![Some(2); 3], true),
+        ("enumerate-rows", "enumerate(M)", "(iter (tuple (iter integer) pint))", vec![Some(2); 2], true),
+        ("zip2", "zip(A, S)", "(iter (tuple integer string))", vec![Some(2); 2], true),
+        ("zip3", "zip(A, S, A)", "(iter (tuple integer string integer))", vec![Some(3); 2], true),
+        ("rows", "M", "(iter (iter integer))", vec![Some(2), Some(2)], false),
+        ("jagged", "J", "(iter (iter integer))", vec![Some(3), Some(2)], false),
+        ("jagged-short-first", "K", "(iter (iter integer))", vec![Some(1), Some(2)], false),
+        ("scalars", "A", "(iter integer)", vec![None; 3], false),
+        ("strings", "S", "(iter string)", vec![None; 2], false),
+        ("nodes", "nodes(G)", "(iter node)", vec![None; 3], false),
+        ("mixed", "X", "(iter any)", vec![None; 2], false),
+        ("empty", "[]", "(iter any)", vec![], false),
+        ("not-iterable", "n", "integer", vec![], false),
+    ];
+    let names = ["a", "b", "c", "d", "e"];
+    let mut out = vec![];
+    for (sname, text, kind, comps, sa) in &sources {
+        let mut patterns: Vec<(bool, Vec<String>)> = vec![(false, vec!["a".into()])];
+        for len in 1..=5usize {
+            let plain: Vec<String> = names[..len].iter().map(|s| s.to_string()).collect();
+            patterns.push((true, plain.clone()));
+            // surplus / trailing slots as `_`
+            for k in 1..=len.min(2) { let mut v = plain.clone(); for i in len - k..len { v[i] = "_".into(); } patterns.push((true, v)); }
+            if all_masks {
+                let mut v = plain.clone(); v[0] = "_".into(); patterns.push((true, v));
+                patterns.push((true, vec!["_".to_string(); len]));
+            }
+        }
+        patterns.dedup();
+        for (tuple, vars) in patterns {
+            let pat = if tuple { format!("({})", vars.join(", ")) } else { vars[0].clone() };
+            for position in ["sum", "for", "define"] {
+                let body = match position {
+                    "sum" => format!("    z >= 0\n    sum({} in {}) {{ 1 }} <= 9\nwhere\n{}define\n    z as Real\n", pat, text, DESTRUCTURE_CONSTS),
+                    "for" => format!("    z >= 0 for {} in {}\nwhere\n{}define\n    z as Real\n", pat, text, DESTRUCTURE_CONSTS),
+                    _ => format!("    z >= 0\nwhere\n{}define\n    z as Real\n    w as Boolean for {} in {}\n", DESTRUCTURE_CONSTS, pat, text),
+                };
+                out.push(Destructure { src: format!("min 1\ns.t.\n{}", body), source: sname, static_kind: kind, comps: comps.clone(), tuple, vars: vars.clone(), position, static_arity: *sa });
+            }
+        }
+    }
+    out
+}
+
+/// inclusive / exclusive ranges whose ends are numeric extremes, in sum / for / define position
+pub fn range_extreme_programs() -> Vec<(String, String)> {
+    // (name, source text, value when it is a valid i64 literal expression)
+    let ends: [(&str, &str, Option<i128>); 13] = [("0", "0", Some(0)), ("1", "1", Some(1)), ("m1", "(0 - 1)", Some(-1)), ("max", "9223372036854775807", Some(i64::MAX as i128)),
+        ("max-1", "9223372036854775806", Some(i64::MAX as i128 - 1)), ("min+1", "(0 - 9223372036854775807)", Some(i64::MIN as i128 + 1)),
+        ("min", "(0 - 9223372036854775807 - 1)", Some(i64::MIN as i128)), ("2^32", "4294967296", Some(1 << 32)), ("cap", "10000000", Some(10_000_000)), ("cap+1", "10000001", Some(10_000_001)),
+        ("2^63", "9223372036854775808", None), ("u64max", "18446744073709551615", None), ("maxf", "9223372036854775807.0", None)];
+    let mut out = vec![];
+    for (ln, lo, lv) in ends.iter() {
+        for (hn, hi, hv) in ends.iter() {
+            for (inc, extra) in [("..", 0i128), ("..=", 1)] {
+                // sizes between 5 000 and the 10 000 000 cap are the known slow / memory-hungry ranges: not enumerated here
+                if let (Some(l), Some(h)) = (lv, hv) { let size = h - l + extra; if (5000..=10_000_000).contains(&size) { continue; } }
+                for position in ["sum", "for", "define"] {
+                    let r = format!("{}{}{}", lo, inc, hi);
+                    let src = match position {
+                        "sum" => format!("min 1\ns.t.\n    sum(i in {}) {{ x }} >= 1\ndefine\n    x as Real\n", r),
+                        "for" => format!("min 1\ns.t.\n    x >= 1 for i in {}\ndefine\n    x as Real\n", r),
+                        _ => format!("min 1\ns.t.\n    x >= 1\ndefine\n    x as Real\n    y_i as Boolean for i in {}\n", r),
+                    };
+                    out.push((format!("range-extreme:{}{}{}:{}", ln, inc, hn, position), src));
+                }
+            }
+        }
+    }
+    out
+}
